@@ -17,6 +17,7 @@
   multi-exon, origin-spanning), all query locations and all histories — no bound on sizes.
 -/
 import ASV.Proofs.LookupValid
+import ASV.Proofs.LookupDefs
 import ASV.Proofs.GeneFunctions
 namespace ASV.C08
 open ASV ASV.Lookup
@@ -639,6 +640,21 @@ theorem loose_definition_is_listed (len : Int) (ops : List Op) (r : Rec) (hok : 
   rw [mem_definition] at h
   rw [mem_children]
   exact inv.defsSub _ h
+
+/-- FULL STATEMENT (not proved yet, executed on every generated history):
+    `∀ ops, HistoryOK ops → runLoose len ops = .ok r → ∀ x, x ∈ r.defs ↔ x ∈ specDefsAfter ops`.
+    Proved here: the `add_cds_feature` step of that induction — in any `runLoose` (or strict) history, adding a gene
+    makes exactly the (protocluster, gene) pairs defining that the spec's replay (`defsStep`, `meetPairs`) adds for
+    that call.  Missing: the same for the `add_<area>` step and for regions re-created by a clearing call (both go
+    through `addFound`; the lemma needed is `down_defines_iff` applied under `mem_within`), and the induction. -/
+theorem defs_match_replay_add_cds_step_partial (len : Int) (ops : List Op) (r r' : Rec) (g : Gene) (hok : HistoryOK (ops ++ [.cds g]))
+    (hrun : runLoose len ops = .ok r) (hstep : addCds r g = .ok r') (x : Nat × Nat) :
+    x ∈ r'.defs ↔ x ∈ r.defs ∨ x ∈ meetPairs [g] (liveAfter ops).areas := by
+  have hok' : ∀ op ∈ ops, OpOK op := fun op hop => hok.opOK op (List.mem_append.2 (Or.inl hop))
+  have inv := (runLoose_inv hok' hrun).core
+  have hin : ∀ a ∈ opsAreas ops, KidsInside a := fun a ha =>
+    hok.inside a (by simp only [opsAreas, List.flatMap_append, List.mem_append]; exact Or.inl ha)
+  exact addCds_defs_match inv hin g (hok.opOK (.cds g) (by simp)) hstep x
 
 /-! ### 9  build-order independence (histories of adding calls) -/
 
